@@ -15,6 +15,9 @@ UniverseSane ==
     /\ TokenStringAt(Tok20, 23) = "A a"
     /\ TokenStringAt(Tok20, 168421) = "use use use use"
     /\ TokenStringAt(Tok31, 954305) = "case case case case"
+    /\ TokenTextAt(Tok20, 23, "raw") = "A a"
+    /\ TokenTextAt(Tok20, 23, "top") = "A a" \o NL \o "start :: fn do end" \o NL
+    /\ TokenTextAt(Tok20, 23, "body") = "start :: fn do" \o NL \o "A a" \o NL \o "end" \o NL
     /\ Cardinality(Inputs) = NumInputs
 ASSUME UniverseSane
 =============================================================================
